@@ -303,6 +303,19 @@ def write_evidence(mod, prop, args, base_seed, seeds, results, good, harness, ne
             break
     n_eval = len(good)
     extra = mod.evidence_extra(good) if hasattr(mod, "evidence_extra") else {}
+    # schedule / fault-plan mix actually drawn (re-generated from the seeds; first 4000 runs)
+    mix = {"policy": Counter(), "granularity": Counter(), "workers": Counter(), "preempt_p": Counter(), "fault_plan": Counter(), "hot_boost": Counter()}
+    for i, r in enumerate(results[:4000]):
+        if r is None or "harness_error" in r:
+            continue
+        sch = mod.generate(seeds[i], args.tier).get("schedule", {})
+        mix["policy"][str(sch.get("policy"))] += 1
+        mix["granularity"][str(sch.get("granularity"))] += 1
+        mix["workers"][str(sch.get("workers"))] += 1
+        mix["preempt_p"][str(sch.get("preempt_p"))] += 1
+        mix["hot_boost"][str(sch.get("hot_boost"))] += 1
+        mix["fault_plan"]["+".join(sorted(sch.get("faults") or {})) or "none"] += 1
+    extra["schedule_mix"] = {k: dict(v) for k, v in mix.items()}
     cov = {
         "evaluations": n_eval,
         "distinct_nontrivial": len(inter),
